@@ -235,8 +235,167 @@ theorem C13_run_accept_meaning (cfg : Config) (ov : List (String × Num)) (txt :
         | error e => simp [h1] at he
         | ok v => cases v; rfl
 
+
+/-! ### From the text -/
+
+/-- the outcome of the disjointness check of the run of a text, when the run gets that far -/
+def checkOf (cfg : Config) (ov : List (String × Num)) (txt : String) : Option (M Unit) :=
+  match Pipeline.parseProgram cfg txt with
+  | .ok c =>
+    match expandAll ov c with
+    | .ok x =>
+      match skeleton x with
+      | .ok (body, _) =>
+        match tooLarge x.registers, Walk.discover body with
+        | .ok (), .ok _ => some (checkDisjoint x)
+        | _, _ => none
+      | _ => none
+    | _ => none
+  | _ => none
+
+/-- **C13 from the text.**  When the run of a text reaches the disjointness check, with outcome `r`: `r` is a refusal with `parErr`
+only if the meaning has a parallel block with two overlapping branches (`SemPar`), with `gateErr` only if a gate application names a
+qubit twice (`SemRepeat`) — and then that is what the run raises —, and `r` is acceptance iff `¬ SemConflict`. -/
+theorem C13_check_text (cfg : Config) (ov : List (String × Num)) (txt : String) (r : M Unit) (h : checkOf cfg ov txt = some r) :
+    ∃ c c₁ c₂ x₁ allQ, Pipeline.parseProgram cfg txt = .ok c ∧ ExpandSubcircuits.expandSubcircuits none none c = .ok c₁ ∧
+      FillIn.fillInLet ov c₁ = .ok c₂ ∧ rawMeaning (FillIn.normOv ov) c₁ = .ok x₁ ∧ allQubits c₂.registers = .ok allQ ∧
+      (r = .ok () ↔ ¬ SemConflict (circuitDefs c₂) (fqOf allQ) (ExpandMacros.spl x₁)) ∧
+      (r = .error parErr → SemPar (circuitDefs c₂) (fqOf allQ) (ExpandMacros.spl x₁) ∧ runModel cfg ov txt = .error parErr) ∧
+      (r = .error gateErr → SemRepeat (circuitDefs c₂) (ExpandMacros.spl x₁) ∧ runModel cfg ov txt = .error gateErr) ∧
+      (SemConflict (circuitDefs c₂) (fqOf allQ) (ExpandMacros.spl x₁) → r = .error parErr ∨ r = .error gateErr) := by
+  unfold checkOf at h
+  cases hp : Pipeline.parseProgram cfg txt with
+  | error e => simp [hp] at h
+  | ok c =>
+    cases hx : expandAll ov c with
+    | error e => simp [hp, hx] at h
+    | ok x =>
+      cases hs : skeleton x with
+      | error e => simp [hp, hx, hs] at h
+      | ok p =>
+        obtain ⟨body, tbl⟩ := p
+        cases hl : tooLarge x.registers with
+        | error e => simp [hp, hx, hs, hl] at h
+        | ok u =>
+          cases u
+          cases hd : Walk.discover body with
+          | error e => simp [hp, hx, hs, hl, hd] at h
+          | ok traces =>
+            simp only [hp, hx, hs, hl, hd, Option.some.injEq] at h
+            subst h
+            obtain ⟨c₁, c₂, x₁, allQ, h1, h2, h3, _, h5, k2, k1, k3, _, _, _, k11, k12, _⟩ :=
+              C13_run_reject_meaning cfg ov txt c x body tbl traces hp hx hs hl hd
+            exact ⟨c, c₁, c₂, x₁, allQ, rfl, h1, h2, h3, h5, k1, fun he => ⟨k11 (k3 _ he).1 he, (k3 _ he).1⟩,
+              fun he => ⟨k12 (k3 _ he).1 he, (k3 _ he).1⟩, k2.2⟩
+
+/-! ### Branch order -/
+
+/-- **C13, branch order, on the meaning.**  `SemConflict` — what the run refuses — does not depend on the order in which the
+branches of the parallel blocks of the meaning tree are written (`SemPerm`: any permutation of the branches of any number of parallel
+blocks, at any depth). -/
+theorem C13_sem_order (defs : List GateDef) (allQ : List FQ) (m m' : Sem) (h : SemPerm m m') :
+    (SemConflict defs allQ m ↔ SemConflict defs allQ m') ∧ (SemPar defs allQ m ↔ SemPar defs allQ m') ∧
+      (SemRepeat defs m ↔ SemRepeat defs m') ∧ ∀ q, q ∈ semQubits defs allQ m ↔ q ∈ semQubits defs allQ m' :=
+  ⟨semConflict_perm defs allQ h, semPar_perm defs allQ h, semRepeat_perm defs h, semQubits_perm defs allQ h⟩
+
+/-- **C13, branch order, the check of the run.**  For a parsed program and its expansion `x`: writing the branches of the parallel
+blocks of the expanded circuit in another order (`PermParC`) changes neither the used-qubit sets nor the verdict of the
+disjointness check — with no hypothesis on the analysis (it succeeds: `flat_used_ok`). -/
+theorem C13_run_order_check (cfg : Config) (ov : List (String × Num)) (txt : String) (c x x' : Circuit)
+    (hp : Pipeline.parseProgram cfg txt = .ok c) (hx : expandAll ov c = .ok x) (hperm : PermParC x x') :
+    (checkDisjoint x = .ok () ↔ checkDisjoint x' = .ok ()) ∧
+      ((∃ e, checkDisjoint x = .error e) ↔ (∃ e, checkDisjoint x' = .error e)) ∧
+      ∃ u u', usedCircuit x = .ok u ∧ usedCircuit x' = .ok u' ∧ ∀ r i, Mem u r i ↔ Mem u' r i := by
+  obtain ⟨c₁, c₂, x₁, F⟩ := run_facts hp hx
+  obtain ⟨allQ, u, _, _, hu, _⟩ := flat_checkDisjoint x (circuitDefs c₂) F.functional F.macros F.flat F.regsT _ F.sem
+  obtain ⟨u', hu', hm⟩ := C13_orderC_used x x' hperm u hu
+  exact ⟨C13_orderC_accept x x' hperm u hu, C13_orderC_reject x x' hperm u hu, u, u', hu, hu', hm⟩
+
+/-- NOT proved: branch order from the SOURCE.  Permuting the branches of parallel blocks of the source program (body and macro
+bodies: `PermParC`) leaves acceptance, the number of subcircuits and the subcircuit of every readout unchanged.  Missing: that the
+three passes map `PermParC` sources to `PermParC` expansions (in particular `expand_macros`, whose splices turn a permutation of the
+branches of a parallel block into a permutation of the spliced list), and that `Walk.discover` / `Walk.visit` are invariant under
+it (the ADDRESSES of the traces move with the branches).  What is proved: `C13_sem_order` (the verdict is a function of the meaning
+tree up to branch order), `C13_run_order_check` (the verdict of the check on permuted expansions), `C13_order_state_perm` +
+`C03_interleave` (the state vector). -/
+def C13_run_order_meaning_full : Prop :=
+  ∀ (cfg : Config) (ov : List (String × Num)) (txt txt' : String) (c c' : Circuit) (s : RunSummary),
+    Pipeline.parseProgram cfg txt = .ok c → Pipeline.parseProgram cfg txt' = .ok c' → PermParC c c' →
+    runModel cfg ov txt = .ok s → ∃ s', runModel cfg ov txt' = .ok s' ∧ s'.subcircuits = s.subcircuits ∧ s'.visits = s.visits
+
+/-! ### Non-vacuity -/
+section Examples
+
+/-- an alias chain (`b[0]` is `a[1]` is `r[2]`) and a macro whose body is a parallel block: the two branches of
+`m b[0] r[2]` = `< X b[0] | X r[2] >` collide only through the alias -/
+def c13Bad : String :=
+  "register r[4]\nmap a r[1:4]\nmap b a[1:3]\nmacro m x y { < X x | X y > }\nprepare_all\nm b[0] r[2]\nmeasure_all\n"
+/-- its twin: `r[1]` instead of `r[2]` -/
+def c13Good : String :=
+  "register r[4]\nmap a r[1:4]\nmap b a[1:3]\nmacro m x y { < X x | X y > }\nprepare_all\nm b[0] r[1]\nmeasure_all\n"
+
+def isErr (e : Err) : M Unit → Bool
+  | .error e' => e' == e
+  | _ => false
+def isOk : M Unit → Bool
+  | .ok _ => true
+  | _ => false
+
+/-- the hypothesis of `C13_check_text`, evaluated: the run of the first text reaches the check, which refuses it with `parErr` -/
+theorem c13Bad_check : (checkOf cfgX [] c13Bad).map (isErr parErr) = some true := by decide +kernel
+/-- … and accepts the twin -/
+theorem c13Good_check : (checkOf cfgX [] c13Good).map isOk = some true := by decide +kernel
+
+/-- hence (`C13_check_text`) the run of the first text fails with `parErr`, and its meaning has a parallel block with two branches
+acting on a common qubit -/
+example : runModel cfgX [] c13Bad = .error parErr ∧ ∃ defs allQ m, SemPar defs allQ m := by
+  have hb := c13Bad_check
+  cases h : checkOf cfgX [] c13Bad with
+  | none => rw [h] at hb; cases hb
+  | some r =>
+    rw [h] at hb
+    have hr' : r = .error parErr := by
+      cases r with
+      | ok u => simp [isErr] at hb
+      | error e =>
+        simp only [Option.map_some, isErr, Option.some.injEq, beq_iff_eq] at hb
+        rw [hb]
+    obtain ⟨c, c₁, c₂, x₁, allQ, _, _, _, _, _, _, k, _⟩ := C13_check_text cfgX [] c13Bad r h
+    exact ⟨(k hr').2, _, _, _, (k hr').1⟩
+
+/-- … and the meaning of the twin has no conflict -/
+example : ∃ defs allQ m, ¬ SemConflict defs allQ m := by
+  have hb := c13Good_check
+  cases h : checkOf cfgX [] c13Good with
+  | none => rw [h] at hb; cases hb
+  | some r =>
+    rw [h] at hb
+    have hr' : r = .ok () := by
+      cases r with
+      | ok u => cases u; rfl
+      | error e => simp [isOk] at hb
+    obtain ⟨c, c₁, c₂, x₁, allQ, _, _, _, _, _, k, _⟩ := C13_check_text cfgX [] c13Good r h
+    exact ⟨_, _, _, k.1 hr'⟩
+
+/-- the specification side by hand: in `< X r[2] | X r[2] >` the two branches have the same `semQubits` -/
+example : SemPar [gX] [("r", 0), ("r", 1), ("r", 2), ("r", 3)]
+    (.blk true false 1 [.gate "X" [.qubit ("r", 2)], .gate "X" [.qubit ("r", 2)]]) :=
+  SemPar.here (j := 0) (k := 1) (q := ("r", 2)) (by decide) rfl rfl (by decide) (by decide)
+
+/-- … and `CX r[2] r[2]` names one qubit twice -/
+example : SemRepeat [{ name := "CX", tag := .native, params := [("c", .qubit), ("t", .qubit)] }]
+    (.gate "CX" [.qubit ("r", 2), .qubit ("r", 2)]) :=
+  SemRepeat.gate ⟨_, List.mem_singleton.2 rfl, rfl, rfl, 0, 1, ("c", .qubit), ("t", .qubit), .qubit ("r", 2), .qubit ("r", 2),
+    ("r", 2), by decide, rfl, rfl, rfl, rfl, rfl, rfl, by decide, by decide⟩
+
+end Examples
+
+
 end Jaqal.RunModel
 
 #print axioms Jaqal.RunModel.C13_run_reject_meaning
 #print axioms Jaqal.RunModel.C13_run_reject_meaning_partial
 #print axioms Jaqal.RunModel.C13_run_accept_meaning
+#print axioms Jaqal.RunModel.C13_check_text
+#print axioms Jaqal.RunModel.C13_sem_order
+#print axioms Jaqal.RunModel.C13_run_order_check
